@@ -514,7 +514,7 @@ func C03(r *core.Run) {
 					continue
 				}
 				var w rawhttp.Builder
-				w.Line(s.Method + " /c03/" + s.Tok + " HTTP/1.1").Field("Host", "c03.example").Field("X-Tok", s.Tok).Field("Accept-Encoding", "identity")
+				w.Line(s.Method+" /c03/"+s.Tok+" HTTP/1.1").Field("Host", "c03.example").Field("X-Tok", s.Tok).Field("Accept-Encoding", "identity")
 				if s.Method == "POST" {
 					w.Field("Content-Length", "3").End()
 					w.WriteString("abc")
@@ -670,8 +670,8 @@ func c03H2(r *core.Run, md *fakes.Metadata, serverBin, agentBin string) {
 			}
 			s.SameName = ""
 		}
-		s.Hop = nil        // hop-by-hop fields do not exist in HTTP/2
-		s.Framing = "h2"   // framing is not a dimension here
+		s.Hop = nil      // hop-by-hop fields do not exist in HTTP/2
+		s.Framing = "h2" // framing is not a dimension here
 		if s.Method == "HEAD" {
 			s.BodyLen, s.body = 0, nil
 		}
@@ -703,7 +703,7 @@ func c03H2(r *core.Run, md *fakes.Metadata, serverBin, agentBin string) {
 			defer cl.Close()
 			for s := range ch {
 				var w rawhttp.Builder
-				w.Line(s.Method + " /c03h2/" + s.Tok + " HTTP/1.1").Field("Host", "c03.example").Field("X-Tok", s.Tok).Field("Accept-Encoding", "identity")
+				w.Line(s.Method+" /c03h2/"+s.Tok+" HTTP/1.1").Field("Host", "c03.example").Field("X-Tok", s.Tok).Field("Accept-Encoding", "identity")
 				if s.Method == "POST" {
 					w.Field("Content-Length", "3").End()
 					w.WriteString("abc")
